@@ -27,7 +27,21 @@ func LoadContracts(repo string) (*Contracts, error) {
 	for d := range dirs {
 		keys = append(keys, d)
 	}
-	sort.Strings(keys)
+	// inner packages first: macros and constants are expanded at parse time, and the packages
+	// further out refer to those of the packages they import
+	sort.Slice(keys, func(i, j int) bool {
+		di, dj := strings.Count(keys[i], "/"), strings.Count(keys[j], "/")
+		if keys[i] == "." {
+			di = -1
+		}
+		if keys[j] == "." {
+			dj = -1
+		}
+		if di != dj {
+			return di > dj
+		}
+		return keys[i] < keys[j]
+	})
 	for _, d := range keys {
 		ms, _ := filepath.Glob(filepath.Join(repo, d, "contracts*_verif.go"))
 		sort.Strings(ms)
